@@ -23,9 +23,9 @@ Layer 1 (this file): convergence of the *replication state*.
   `expiry_divergence_counterexample` (known findings).
 
 Layer 2 (command → delta glue and re-materialisation into the executor, "what a replica serves
-equals what its replication state says") is decided by the correspondence harness and its
-oracle (`harness/src/c06.rs`), with the glue defects recorded as known findings; see
-DESIGN.md §4 C06.
+equals what its replication state says") is proved in `Props/C06Glue.lean` over the glue model
+`Model/Glue.lean` (`served_equals_replicated_partial`, `converged_reads_equal_partial`, which
+composes this file's `rs_converges_of_kind_stable` with the node invariant); see DESIGN.md §4 C06.
 -/
 namespace RedisVerif
 namespace C06
